@@ -365,6 +365,26 @@ theorem history_preserves_reference {H : Type} (el : Bytes → Option Nat) (hf :
     (∀ pk ∈ peaks (mmr N), p.b.getPeakFromFile pk = some (refHash hf (leafFn r.cur.es) pk)) :=
   hinv_observables el hf (hinv_run el hf ops _ _ (hinv_init hf) hproto)
 
+/-- **A removal-only unit followed by its rewind conforms to the protocol.**  A unit of work that
+removes leaves and appends nothing leaves the MMR size unchanged; after it is committed, the
+rewind to the boundary just before it has position = the *current* size and `rewind_rm_pos` = the
+leaves the unit removed.  For every reference state with `C ≤` current leaf count and every list
+`ps` of leaf positions of the MMR that no compaction has removed, the history
+`prune p₁ … prune pₖ, sync, rewind N [p₁+1 … pₖ+1]` satisfies `RefSt.Proto`, keeps the leaf
+history, and (if the `pᵢ` were unspent) restores the unspent set – so by
+`history_preserves_reference` the store has the spent-then-rewound leaves unspent again, with
+their data, hashes and proofs.  (Append-only, mixed and empty units and rewinds across several
+units need no extra statement: `push`, `prune`, `sync` are unrestricted and `rewind` only asks for
+`C ≤ N' ≤ size` from a synced state.) -/
+theorem removal_only_unit_then_rewind_conforming (r : RefSt) (hC : r.C ≤ r.cur.es.length)
+    (ps : List Nat)
+    (hps : ∀ p ∈ ps, isLeaf p = true ∧ p + 1 ≤ mmr r.cur.es.length ∧ p ∉ r.G) :
+    let ops := ps.map HOp.prune ++ [HOp.sync, HOp.rewind r.cur.es.length (ps.map (· + 1))]
+    RefSt.Proto r ops ∧ (ops.foldl RefSt.step r).cur.es = r.cur.es ∧
+    ((∀ p ∈ ps, p ∈ r.cur.U) → (∀ q ∈ r.cur.U, q < mmr r.cur.es.length) →
+      ∀ q, q ∈ (ops.foldl RefSt.step r).cur.U ↔ q ∈ r.cur.U) :=
+  RefSt.removal_unit_then_rewind r hC ps hps
+
 /-- **Merkle proofs over histories.** After any history obeying the protocol, `merkle_proof` of
 every unspent leaf over the (pruned, compacted, rewound, reopened) store is the very proof value
 the unpruned Vec-backed reference produces. -/
@@ -544,5 +564,23 @@ example : RefSt.Proto {} [.push [1], .push [2], .push [3], .sync, .prune 0, .pru
   simp only [RefSt.Proto, RefSt.ok, RefSt.step, List.length_append, List.length_cons, List.length_nil,
     and_true, true_and]
   refine ⟨hb _ (by omega), hb _ (by omega), hb _ (by omega), ?_, hb _ (by omega), ?_, ?_, ?_⟩ <;> simp
+
+-- a removal-only unit and the rewind that undoes it: four leaves, commit; spend the leaves at
+-- positions 0 and 1 (nothing appended: the size stays 7), commit; rewind to the boundary before
+-- that unit - position = current size, rewind_rm_pos = {1, 2} - commit the rewind alone, reopen
+example : RefSt.Proto {} [.push [1], .push [2], .push [3], .push [4], .sync, .prune 0, .prune 1,
+    .sync, .rewind 4 [1, 2], .sync, .reopen] := by
+  have hb : ∀ n, n ≤ 10 → mmr n + 64 < 2 ^ 64 := fun n hn => by
+    have := Pmmr.Co.mmr_le_two_mul n; omega
+  have hl0 : isLeaf 0 = true := by simp [isLeaf, height, peakMapHeight]
+  have hl1 : isLeaf 1 = true := by
+    have := pmh_coord 1 0 (by simp)
+    rw [mmr_vals.1] at this
+    simp [isLeaf, height, this]
+  have m4 : mmr 4 = 7 := mmr_vals.2.2.1
+  simp only [RefSt.Proto, RefSt.ok, RefSt.step, List.length_append, List.length_cons, List.length_nil,
+    and_true, true_and]
+  refine ⟨hb _ (by omega), hb _ (by omega), hb _ (by omega), hb _ (by omega), ?_⟩
+  simp [m4, hl0, hl1]
 
 end GV.Props.C08
